@@ -493,6 +493,9 @@ func cmdCheck(args []string) {
 		os.WriteFile(blPath, []byte(strings.Join(lines, "\n")+"\n"), 0o644)
 		bl, _ = loadBaseline(blPath)
 		fmt.Printf("baseline written: %d claimed, %d not claimed\n", len(bl.Claimed), len(bl.NotClaimed))
+		for f, e := range out.FuncErrs {
+			fmt.Printf("WARNING: %s could not be translated and contributes nothing to this baseline: %s\n", f, e)
+		}
 	}
 	code := report(g, p, bl, out, *tier, seed, verif, repo, start)
 	os.RemoveAll(work)
